@@ -9,7 +9,7 @@ from c02 import fixture_dir
 from execclient import Script, hx, by_index
 from runner import Failure, Outcome, h64
 from schema import (HAND, emit_schema, F_COMMENTS, F_IGNORE_UNKNOWN, F_NOCASE, F_MULTI, F_TITLE, F_LIST, F_KEYSTRVAL,
-                    o_int, o_str, o_list, o_sec, o_func, o_ptr, o_float, o_bool)
+                    o_int, o_str, o_list, o_sec, o_func, o_ptr, o_float, o_bool, o_simple)
 
 PUNCT = {"=", "+=", "{", "}", "(", ")", ","}
 
@@ -42,6 +42,7 @@ API_SCHEMA = [
     o_sec("tm", [o_int("x", 7), o_str("y", "why"), o_list("str", "zl", "{p, q}"), o_ptr("q")], F_MULTI | F_TITLE),
     o_sec("single", [o_int("x", 7), o_list("int", "zl", "{1, 2}"), o_sec("in", [o_str("w", "w0")], F_MULTI)]),
     o_sec("kv", [], F_KEYSTRVAL), o_func("include", "include"), o_func("fn"),
+    o_simple("str", "ss", "init"), o_simple("int", "si", 5),      # CFG_SIMPLE_*: the strings belong to the application
 ]
 HAND["c07api"] = API_SCHEMA
 
@@ -248,6 +249,11 @@ class C07:
             ("ptr-in-sec-setopt-refused", [["getopt", 1, hx("tm=a|q"), 9], ["cbfail", 1], ["setopt", 1, 9, hx("zz")], ["cbfail", 0]]),
             ("setstr-null-list", ["setstr", 1, hx("sl"), 0, "~"]),
             ("parse-read-error", ["parse_fp_fail", 1, hx(good), 120]),
+            ("simple-parse", ["parse_buf", 1, hx("ss = fromtext\nsi = 9\nss = again\n")]),
+            ("simple-setstr", ["setstr", 1, hx("ss"), 0, hx("v")]),
+            ("simple-setmulti-good", ["setmulti", 1, hx("ss"), 2, hx("g1"), hx("g2")]),
+            ("simple-setmulti-refused", ["setmulti", 1, hx("ss"), 3, hx("g1"), hx("g2"), "~"]),
+            ("simple-int-setmulti-refused", ["setmulti", 1, hx("si"), 2, hx("1"), hx("bad")]),
         ]
 
     def histories(self, depth):
